@@ -253,6 +253,15 @@ def search(check: Check, n_examples: int, seed: int, stats: Stats, known, shrink
         except HarnessError:
             raise
         except hypothesis.errors.HypothesisException as e:
+            if 'case' in last:
+                # e.g. Flaky: a violation was observed but did not reproduce when Hypothesis replayed the case, which
+                # happens when the code under test keeps state between cases (itself a defect worth reporting): keep
+                # the last failing case unshrunk
+                sig, detail = last['unknown'][0]
+                failures.append({'signature': sig, 'detail': f'[{type(e).__name__} during shrinking] {detail}',
+                                 'case': last['case'], 'check': check.name})
+                masked.add(sig)
+                continue
             raise HarnessError(f'{check.name}: hypothesis error {type(e).__name__}: {e}') from e
         break
     return failures
